@@ -247,6 +247,7 @@ class TlsExtensionServerNameClient(TlsExtensionParsed):
 
         try:
             host_name = six.ensure_text(bytes(bytearray(parser['server_name'])), 'idna')
+            six.ensure_binary(host_name, 'idna')  # a name that cannot be encoded again is not a host name
         except UnicodeError as e:
             six.raise_from(InvalidValue(bytes(bytearray(parser['server_name'])), cls, 'server_name'), e)
 
